@@ -32,6 +32,7 @@ d = put(d, "seeded7", "g")
 d = put(d, "seeded8", "h")
 d = put(d, "seeded9", "i")
 d = put(d, "seeded10", "j")
+d = put(d, "seeded11", "k")
 t2 = ["| seeded change | needs to manifest | caught by (final) | first version of the check |", "|---|---|---|---|"] + seeded_rows("b")
 block = "<!-- seeded2:begin -->\n" + "\n".join(t2) + "\n<!-- seeded2:end -->"
 if "<!-- seeded2:begin -->" in d:
